@@ -376,6 +376,36 @@ fn simpler(p: &Prog) -> Vec<Prog> {
         out.push(q);
     }
     let ns: Vec<PTy> = nodes(p).into_iter().cloned().collect();
+    // a use of a name replaced by the (first) definition of the name
+    for (k, n) in ns.iter().enumerate() {
+        if let PTy::Var(v) = n {
+            if let Some((_, d)) = p.defs.iter().find(|d| d.0 == *v) {
+                if !matches!(d, PTy::Var(_)) {
+                    let d = d.clone();
+                    out.push(with_node(p, k, move |t| *t = d));
+                }
+            }
+        }
+    }
+    // canonical definition names t0, t1, ... (all definitions and uses of the old name)
+    for (i, (old, _)) in p.defs.iter().enumerate() {
+        let new = format!("t{i}");
+        if *old != new && !p.defs.iter().any(|d| d.0 == new) && !ns.iter().any(|n| matches!(n, PTy::Var(v) if *v == new)) {
+            let mut q = p.clone();
+            for d in q.defs.iter_mut() {
+                if d.0 == *old {
+                    d.0 = new.clone();
+                }
+            }
+            for k in 0..ns.len() {
+                if matches!(&ns[k], PTy::Var(v) if v == old) {
+                    let new = new.clone();
+                    q = with_node(&q, k, move |t| *t = PTy::Var(new));
+                }
+            }
+            out.push(q);
+        }
+    }
     for (k, n) in ns.iter().enumerate() {
         // replace by a child, by nat, or drop one element of a list
         match n {
